@@ -249,6 +249,46 @@ func c12r3(c *an.Ctx) {
 		}
 	}
 	c.Floor("ServeOne calls in Serve", 1, nServe)
+	// ... and the tracker runs what it is given: a connection accepted while the context is being cancelled must still
+	// be served (ServeOne is what closes it)
+	run := c.Fn("drpcctx", "(*Tracker).Run")
+	var goAt ssa.Instruction
+	an.Instrs(run, func(in ssa.Instruction) {
+		if g, ok := in.(*ssa.Go); ok {
+			passes := false
+			for _, arg := range g.Common().Args {
+				if len(run.Params) > 1 && arg == ssa.Value(run.Params[1]) {
+					passes = true
+				}
+			}
+			if mc, isMC := g.Common().Value.(*ssa.MakeClosure); isMC {
+				for _, b := range mc.Bindings {
+					if al, isAl := b.(*ssa.Alloc); isAl && len(run.Params) > 1 {
+						for _, r := range *al.Referrers() {
+							if st, isSt := r.(*ssa.Store); isSt && st.Val == ssa.Value(run.Params[1]) {
+								passes = true
+							}
+						}
+					}
+					if len(run.Params) > 1 && b == ssa.Value(run.Params[1]) {
+						passes = true
+					}
+				}
+			}
+			if passes {
+				goAt = in
+			}
+		}
+	})
+	okRun := goAt != nil
+	if okRun {
+		for _, ret := range an.Returns(run) {
+			if retReachable(run, ret) && !an.InstrDominates(goAt, ret) {
+				okRun = false
+			}
+		}
+	}
+	c.Check(okRun, "(*Tracker).Run | starts the callback on every call", c.P.Pos(run.Pos()), "", "Tracker.Run can return without running its callback: a connection accepted around cancellation is neither served nor closed")
 }
 
 func c12r4(c *an.Ctx) { closeOnce(c, "") }
@@ -319,6 +359,12 @@ func closeOnce(c *an.Ctx, onlyPkg string) {
 					}
 				}
 				held = held || flipped
+				if !flipped && lf != nil && len(lf.Must(in)) > 0 {
+					if ok, why := closedThenReplaced(c, pl, lf, fn, call, pkg); ok {
+						c.Ok(key, c.At(in), why)
+						return
+					}
+				}
 				c.Check(held && flipped, key, c.At(in), "under a mutex, behind a flag flipped in the same critical section",
 					"close(ch) can run twice (close of closed channel panics): it is neither inside a sync.Once nor under a mutex behind a state test that the same critical section flips before closing")
 			})
@@ -591,4 +637,68 @@ func c12r5(c *an.Ctx) {
 	}
 	c.Check(bad == "", "(*Conn).Close | reaches Manager.Close without waiting for a call in flight", pos, fmt.Sprintf("%d mutex(es) are held across blocking calls in drpcconn; Close takes none of them first", len(long)),
 		"Close locks a mutex before closing the manager that "+bad+": Close waits for the call that only the close would unblock")
+}
+
+// closedThenReplaced: close(x.F) under a mutex with x.F overwritten (nil or a fresh channel) before the mutex is
+// released: nobody can load that channel from F again, so it is closed once - provided every other close of F in the
+// package that does NOT replace it sits behind a flag that this site tests as well (a closed-for-good buffer).
+func closedThenReplaced(c *an.Ctx, pl *an.PkgLocks, lf *an.LockFlow, fn *ssa.Function, call *ssa.Call, pkg string) (bool, string) {
+	ld, ok := an.Unwrap(call.Common().Args[0]).(*ssa.UnOp)
+	if !ok {
+		return false, ""
+	}
+	f := an.PathOf(ld.X).Last()
+	if f == nil {
+		return false, ""
+	}
+	replaces := func(g *ssa.Function, cl ssa.Instruction, glf *an.LockFlow) bool {
+		okR := false
+		for _, st := range fieldStores(g, f) {
+			if an.InstrDominates(cl, st) && glf != nil && sameHeld(glf.Must(st), glf.Must(cl)) && !unlockBetween(pl, glf, cl, st) {
+				okR = true
+			}
+		}
+		return okR
+	}
+	if !replaces(fn, call, lf) {
+		return false, ""
+	}
+	// other closes of the same field
+	for _, g := range must(c.P.SourceFuncs(pkg)) {
+		glf := pl.Flow(g)
+		bad := false
+		an.Instrs(g, func(in ssa.Instruction) {
+			c2, isCall := in.(*ssa.Call)
+			if !isCall || c2 == call {
+				return
+			}
+			b, isB := c2.Common().Value.(*ssa.Builtin)
+			if !isB || b.Name() != "close" || !isLoadOfField(c2.Common().Args[0], f) {
+				return
+			}
+			if replaces(g, c2, glf) {
+				return
+			}
+			// a close for good: its flag must be tested (same polarity) on the way to our site
+			matched := false
+			for _, g2 := range an.GuardsOf(in.Block()) {
+				tf := testedField(g2.Cond)
+				if tf == nil {
+					continue
+				}
+				for _, g1 := range an.GuardsOf(call.Block()) {
+					if testedField(g1.Cond) == tf && g1.True == g2.True {
+						matched = true
+					}
+				}
+			}
+			if !matched {
+				bad = true
+			}
+		})
+		if bad {
+			return false, ""
+		}
+	}
+	return true, "under a mutex, and the field is given a new value before the mutex is released: this channel cannot be reached (and closed) again"
 }
